@@ -24,7 +24,7 @@ observable.  NOT decided: that results equal those of a reference ordered map (v
 ASSUMPTIONS = ['the Marker implementation is consistent (is_erased after mark_erased, cmp a total order)',
                'C15: SlidingDeque behaves as a deque (its own rules)']
 
-FLOORS = {'R16.1': 6, 'R16.2': 2, 'R16.3': 6, 'R16.4': 3}
+FLOORS = {'R16.1': 6, 'R16.2': 3, 'R16.3': 6, 'R16.4': 3}
 
 SD = 'sliding_deque::sorted_deque::SortedDeque'
 SL = 'sliding_deque::sliding_deque::SlidingDeque'
@@ -201,6 +201,17 @@ def r16_2(cx):
             cx.check(ok, 'find-some', find, find.loc(pos.bb, pos.idx), 'Some(item) only where is_erased(item) is false',
                      fail_detail='find can return an item without having tested is_erased on it')
     cx.check(n >= 1, 'find-has-some', find, None, '%d Some site(s)' % n, fail_detail='no Some site in find')
+    # the lookup both find and remove rely on is one binary search over all the items, by key
+    fi = cx.prog.fn(SD + '::find_index')
+    r = fi.local_expr(0, []).strip()
+    okb = is_call(r, 'Result::ok') and is_call(r.args[0], 'binary_search_by') and any(m.is_items(n) for n in r.args[0].strip().args[0].walk()) \
+        and not any(c.op.rsplit('::', 1)[-1] in ('index', 'split_at', 'get', 'rev', 'skip', 'take') for c in r.args[0].strip().args[0].calls())
+    cl = closure_of(cx.prog, r.args[0].strip().args[1]) if okb else None
+    if okb and cl is not None:
+        cr = cl.local_expr(0, []).strip()
+        okb = cr.kind == 'call' and cr.op.endswith('::cmp') and cr.args[1].has_call('extract_key') and 2 in cr.args[1].params()
+    cx.check(bool(okb) and cl is not None, 'find_index', fi, None, 'find_index = items.binary_search_by(|item| cmp(key(item), key)).ok()',
+             fail_detail='find_index is %s: an index that is not the position in the whole deque makes find / remove act on another item' % show(r)[:140])
     it = cx.prog.fn(SD + '::iter')
     cls = cx.prog.closures_of(it)
     ok = False
@@ -314,7 +325,7 @@ def r16_4(cx):
 def r16_5(cx):
     """what the sorted deque stands on: the sliding deque underneath keeps its invariant and its containers delegate (R15.1-R15.7)"""
     from . import c15
-    compose(cx, [('R15.1', c15.r15_1), ('R15.2', c15.r15_2), ('R15.3', c15.r15_3), ('R15.4', c15.r15_4), ('R15.5', c15.r15_5), ('R15.6', c15.r15_6), ('R15.7', c15.r15_7)])
+    compose(cx, [('R15.1', c15.r15_1), ('R15.2', c15.r15_2), ('R15.3', c15.r15_3), ('R15.4', c15.r15_4), ('R15.5', c15.r15_5), ('R15.6', c15.r15_6), ('R15.7', c15.r15_7), ('R15.8', c15.r15_8)])
 
 
 RULES = [('R16.1', r16_1), ('R16.2', r16_2), ('R16.3', r16_3), ('R16.4', r16_4), ('R16.5', r16_5)]
